@@ -1,0 +1,45 @@
+//! Verification hooks for the /verif harness. Compiled only with `--cfg undermoon_verif`.
+//! The hooks only observe or yield; they never change behaviour.
+use std::sync::{Arc, RwLock};
+
+pub type PointHook = Arc<dyn Fn(&'static str) + Send + Sync>;
+pub type EventHook = Arc<dyn Fn(&'static str, &[u8]) + Send + Sync>;
+
+lazy_static! {
+    static ref POINT_HOOK: RwLock<Option<PointHook>> = RwLock::new(None);
+    static ref EVENT_HOOK: RwLock<Option<EventHook>> = RwLock::new(None);
+}
+
+pub fn set_point_hook(hook: Option<PointHook>) {
+    if let Ok(mut h) = POINT_HOOK.write() {
+        *h = hook;
+    }
+}
+
+pub fn set_event_hook(hook: Option<EventHook>) {
+    if let Ok(mut h) = EVENT_HOOK.write() {
+        *h = hook;
+    }
+}
+
+/// A scheduling point placed right before a shared-memory access.
+pub fn point(name: &'static str) {
+    let hook = match POINT_HOOK.read() {
+        Ok(h) => h.clone(),
+        Err(_) => None,
+    };
+    if let Some(hook) = hook {
+        hook(name);
+    }
+}
+
+/// An observation tap (lock acquire/release, state transitions).
+pub fn event(kind: &'static str, detail: &[u8]) {
+    let hook = match EVENT_HOOK.read() {
+        Ok(h) => h.clone(),
+        Err(_) => None,
+    };
+    if let Some(hook) = hook {
+        hook(kind, detail);
+    }
+}
